@@ -205,6 +205,85 @@ def drop_cfg_wasm(text):
     return text2, applied
 
 
+def inline_let_closures(text, log):
+    """R17: `let f = |a: T, b| EXPR;` whose every later use is a direct call `f(x, y)` is inlined at each call as
+    `{ let vcl_0 = x; let vcl_1 = y; let a: T = vcl_0; let b = vcl_1; EXPR }` and the `let` is dropped.  Exact for closures that are only
+    called (borrow rules make the captured variables the same at creation and at the call); anything else (closure passed as a value,
+    `return` inside, pattern parameters, explicit return type) is left alone -- the function then still contains a closure and a failed
+    proof in it is reported as undecided, never as a violation."""
+    skipped = set()
+    while True:
+        m = mask(text)
+        mm = None
+        for cand in re.finditer(r'\blet\s+(\w+)\s*=\s*(?:move\s+)?\|([^|]*)\|\s*', m):
+            if cand.start() not in skipped:
+                mm = cand; break
+        if mm is None:
+            return text
+        def give_up():
+            skipped.add(mm.start())
+        name = mm.group(1)
+        params = [q for q in split_top_commas(text[mm.start(2):mm.end(2)])]
+        plist, ok = [], True
+        for q in params:
+            pm = re.match(r'^(mut\s+)?(\w+)\s*(?::\s*(.+))?$', q, re.S)
+            if not pm:
+                ok = False; break
+            plist.append(((pm.group(1) or '') + pm.group(2), pm.group(3)))
+        k = mm.end()
+        if not ok or k >= len(m) or m[k:k + 2] == '->':
+            give_up(); continue
+        # closure body up to the `;` that ends the let statement
+        j, bad = k, False
+        while j < len(m) and m[j] != ';':
+            if m[j] in '([{':
+                j = match_bracket(m, j)
+                if j < 0:
+                    bad = True; break
+            elif m[j] in ')]}':
+                bad = True; break
+            j += 1
+        if bad or j >= len(m):
+            give_up(); continue
+        expr = text[k:j].strip()
+        if re.search(r'\breturn\b|\?', mask(expr)) or re.search(r'\b' + name + r'\b', mask(expr)):
+            give_up(); continue
+        stmt_end = j + 1
+        # end of the enclosing block
+        depth, e = 0, stmt_end
+        while e < len(m):
+            if m[e] in '([{':
+                depth += 1
+            elif m[e] in ')]}':
+                if depth == 0:
+                    break
+                depth -= 1
+            e += 1
+        uses = list(re.finditer(r'\b' + name + r'\b', m[stmt_end:e]))
+        calls, fine = [], True
+        for u in uses:
+            a = stmt_end + u.end()
+            while a < len(m) and m[a] in ' \t\n':
+                a += 1
+            if a >= len(m) or m[a] != '(' or (stmt_end + u.start() > 0 and m[stmt_end + u.start() - 1] in '.:'):
+                fine = False; break
+            cb = match_bracket(m, a)
+            args = split_top_commas(text[a + 1:cb])
+            if len(args) != len(plist) or any(re.search(r'\b' + name + r'\b', mask(x)) for x in args):
+                fine = False; break
+            calls.append((stmt_end + u.start(), cb + 1, args))
+        if not fine or re.search(r'\b' + name + r'\b', m[e:]) and False:
+            give_up(); continue
+        for cs, ce, args in reversed(calls):
+            binds = ''.join('let vcl_%d = %s; ' % (i, a) for i, a in enumerate(args))
+            binds += ''.join('let %s%s = vcl_%d; ' % (pn, (': ' + pt) if pt else '', i) for i, (pn, pt) in enumerate(plist))
+            text = text[:cs] + '{ ' + binds + '(' + expr + ') }' + text[ce:]
+        ls = mm.start()
+        text = text[:ls] + '/* R17: closure `%s` inlined at its %d call(s) */' % (name, len(calls)) + text[stmt_end:]
+        log.append(('R17', 'let-bound closure `%s` inlined at its %d direct call(s)' % (name, len(calls)), 1))
+
+
+
 def apply_standard_rewrites(text, log):
     def r1(name, args):
         parts = split_top_commas(args)
@@ -426,7 +505,7 @@ class Unit:
         generated = []
         for kw, arg, _ in sec.block('phfset'):
             nm = arg.split()[0]
-            pat = re.compile(r'static\s+' + re.escape(nm) + r'\s*:\s*phf::Set<\s*(&?\w+)\s*>\s*=\s*phf_set!\s*\{([^}]*)\}\s*;')
+            pat = re.compile(r'static\s+' + re.escape(nm) + r'\s*:\s*phf::Set<\s*(&?\w+)\s*>\s*=\s*phf_set!\s*\{((?:[^{}]|\{[^{}]*\})*)\}\s*;')
             mm = pat.search(text_body) or pat.search(src.text)
             if not mm:
                 raise CutError("%s: phf_set %s not found (lost anchor)" % (path, nm))
@@ -466,6 +545,7 @@ class Unit:
         if mutation:
             rule, rx, rp = mutation
             text_body = apply_subst(text_body, 'CANARY', rx, rp, [], path)
+        text_body = inline_let_closures(text_body, log)
         # visibility off, rename
         text_sig = re.sub(r'^\s*pub(\s*\([^)]*\))?\s+', '', text_sig)
         emitted = re.search(r'\bfn\s+(\w+)', text_sig).group(1)
@@ -599,8 +679,14 @@ class Unit:
                 self.items.append(info)
             elif s.kind == 'fn':
                 mu = mutation if (mut_target and s.arg.replace(' ', '') == mut_target) else None
-                mutated |= mu is not None
-                text, impl, info = self._extract_fn(s, mu)
+                try:
+                    text, impl, info = self._extract_fn(s, mu)
+                    mutated |= mu is not None
+                except CutError as e:
+                    # several sections may cut regions out of the same function: the canary's mutation belongs to the one it matches
+                    if mu is None or 'CANARY' not in str(e):
+                        raise
+                    text, impl, info = self._extract_fn(s, None)
                 em.add("// ---- extracted fn %s line %d sha %s ----" % (s.arg, info['line'], info['sha']))
                 for g in info.get('generated', []):
                     em.add(g)
